@@ -593,7 +593,7 @@ pub fn c13(ctx: &mut Ctx) -> String {
         }
         let (t, fam) = gen_game(&mut ctx.rng, i, 1500);
         ctx.stat(&format!("family_{}", fam));
-        let kind = pick_prof_kind(&mut ctx.rng);
+        let kind = pick_prof_kind_view(&mut ctx.rng);
         let prof = gen_profile(&mut ctx.rng, &t, kind);
         let mut case = json!({"op": "named", "tree": t.to_json(), "prof": prof_json(&prof)});
         if i % 3 == 2 {
@@ -624,7 +624,7 @@ pub fn c13(ctx: &mut Ctx) -> String {
             }
         }
     }
-    "games from the mixed stream x profiles {random, pure, zeros, uniform, unnormalised, truncated, solver output of the three methods}; len() is queried before every next() of both iterator levels; distinct = hash of (tree, profile); non-trivial = at least two infosets".to_string()
+    "games from the mixed stream x profiles {random, pure, zeros, uniform, unnormalised, tiny (weights down to subnormal doubles), truncated, solver output of the three methods}; len() is queried before every next() of both iterator levels; distinct = hash of (tree, profile); non-trivial = at least two infosets".to_string()
 }
 
 // ---------------------------------------------------------------------------------------------
